@@ -78,7 +78,7 @@ def configureTxTxin (h : HashCtx) (tc : TapCtx) (tx txin : Tx) (idx vout : Nat) 
               match getOp scriptPubKey with
               | none => none
               | some s1 =>
-                if s1.opcode != Op.OP_HASH160 then none
+                if s1.opcode != Op.OP_HASH160 || !isPayToScriptHash scriptPubKey then none
                 else
                   match getOp s1.rest with
                   | none => none
